@@ -91,7 +91,7 @@ def run(prop, replay=None):
     v.rule = ("case = (pipeline class of 9, key kind, preload/streaming, worker count 2..8, stream of 12 (thorough 16) events over 4 keys) run "
               "through the real CLI binary with 1 and N workers (auto-selected and explicit --partition-by); non-trivial = the single-worker run emits something; distinct by hash")
     v.assumptions = ["outputs are read from the binary's 'Output Events Summary' (its own count line must agree)",
-                     "every event carries the key field; keys of one type per case"]
+                     "keys of one type per case; events without the key field are included (they form the placeholder partition)"]
     ml = 5 if quick else 6
     r = mc("window", "hash", ml)
     if r.error:
@@ -136,8 +136,10 @@ def run(prop, replay=None):
         keys = STR_KEYS if c["kk"] == "str" else INT_KEYS
         with open(evt, "w") as f:
             for i, e in enumerate(c["stream"]):
-                k = keys[e["k"]]
-                f.write('%s { id: %d, k: %s, x: %d }\n' % (e["type"], i + 1, json.dumps(k), e["x"]))
+                if e["k"] == 0:
+                    f.write('%s { id: %d, x: %d }\n' % (e["type"], i + 1, e["x"]))
+                else:
+                    f.write('%s { id: %d, k: %s, x: %d }\n' % (e["type"], i + 1, json.dumps(keys[e["k"]]), e["x"]))
         small = {"class": c["cls"], "program": PROGRAMS[c["cls"]], "events": open(evt).read(), "workers": c["nw"], "mode": c["mode"]}
         ref, refn, err = simulate(binary, prog, evt, 1, c["mode"], None)
         if ref is None:
